@@ -193,9 +193,17 @@ def gen_table(rng):
                 data=data, texts=texts, nrows=nrows, kinds=kinds)
 
 
+SLOT = [0]
+
+
 def load_table(tb, workdir):
     from tdda.serial.reader import csv2pandas
-    d = tempfile.mkdtemp(prefix='c16-', dir=workdir)
+    # the same few paths are written again and again with other tables (a re-export): what is loaded must always
+    # be what is on disk now
+    SLOT[0] += 1
+    d = os.path.join(workdir, 'c16-slot%d' % (SLOT[0] % 3))
+    shutil.rmtree(d, ignore_errors=True)
+    os.makedirs(d)
     try:
         csvp = os.path.join(d, 't.csv')
         delim = tb['delim']
